@@ -16,7 +16,11 @@ from ..absint import (Interp, DT, TD, TZ, Obj, ClassVal, AbsRaise, Unsupported, 
 
 ALLOWED_OPS = {"isinstance", "order-compare", "date.tzinfo", "date.replace",
                "datetime.replace", "tzp.localize_utc", "mapping-contains",
-               "tzid_from_dt", "date.year", "date.month", "date.day"}
+               "tzid_from_dt", "date.year", "date.month", "date.day",
+               # sub-second fields: interpreted on the quarter-second convention of the order
+               # types (run()); a function using them depends on more than the order of the
+               # instants, so what is decided for it is the explored model, not a proof
+               "date.microsecond", "datetime.replace(microsecond)"}
 
 
 def weak_orders(names):
@@ -91,6 +95,9 @@ def run(ctx):
     ]
     it = Interp(m)
     it_pytz = Interp(m, provider="pytz")
+    # the instants of the order types are a quarter of a second apart (four ranks per second):
+    # code that drops sub-second precision before comparing is seen to merge distinct instants
+    it.subsecond_ranks = it_pytz.subsecond_ranks = True
     at_cls = m.cls("alarms.AlarmTime")
     al_cls = m.cls("alarms.Alarms")
     ncases = 0
@@ -124,7 +131,11 @@ def run(ctx):
     if bad_ops:
         raise AnalysisError(f"the alarm functions use operations outside the abstract "
                             f"interface: {sorted(bad_ops)}")
-    ctx.extra.update({"abstract_cases": ncases, "exhaustive": True,
+    subsec = it.ops_seen & {"date.microsecond", "datetime.replace(microsecond)"}
+    if subsec:
+        ctx.note("the alarm functions read or change sub-second fields: the verdict is that of the "
+                 "explored quarter-second model, not a proof over all orderings")
+    ctx.extra.update({"abstract_cases": ncases, "exhaustive": not subsec,
                       "interface_ops": sorted(it.ops_seen)})
     for cls, items in sorted(fails.items()):
         case, field, got, exp = items[0]
@@ -138,6 +149,7 @@ def run(ctx):
     ctx.extra["deviating_cases"] = len(bad_cases)
     _sublist(ctx, m, al_cls)
     _history(ctx, m, al_cls)
+    _order(ctx, m, al_cls)
     _wiring(ctx, m, al_cls)
 
 
@@ -298,6 +310,73 @@ def _history(ctx, m, al_cls):
                   f"after .times/.active were read, {name} gives times/active {got}; an object that was "
                   f"never read gives {want} (a stale cached result)", al_cls.loc(),
                   detail="same as on a fresh object")
+
+
+def _order(ctx, m, al_cls):
+    """Settings that add_component does not define are independent of it: setting the snooze
+    time, the local time zone or another alarm before the component is added gives the same
+    times/active as setting them afterwards (add_component of a component without X-MOZ
+    properties defines parent, start, end and the acknowledgement only)."""
+    vddd = ClassVal(m.cls("prop.vDDDTypes"))
+
+    def event(it, stamp=True):
+        ev = it.call(ClassVal(m.cls("cal.Event")), [], {})
+        ev.items["DTSTART"] = it.call(vddd, [DT("utc", 10, None)], {})
+        ev.items["DTEND"] = it.call(vddd, [DT("utc", 20, None)], {})
+        if stamp:
+            ev.items["DTSTAMP"] = it.call(vddd, [DT("utc", 40, None)], {})
+        al = it.call(ClassVal(m.cls("cal.Alarm")), [], {})
+        al.items["TRIGGER"] = it.call(vddd, [TD(term={"T": 1}, mag="subday")], {})
+        ev.attrs["subcomponents"].append(al)
+        return ev
+
+    def extra_alarm(it):
+        al = it.call(ClassVal(m.cls("cal.Alarm")), [], {})
+        al.items["TRIGGER"] = it.call(vddd, [DT("utc", 60, None)], {})
+        return al
+
+    def observe(it, alarms):
+        out = []
+        for attr in ("times", "active"):
+            try:
+                row = []
+                for at in it._as_list(it.getattr(alarms, attr)):
+                    try:
+                        t = it.getattr(at, "trigger")
+                        row.append((t.rank, term_str(t.term)) if isinstance(t, DT) else repr(t))
+                    except AbsRaise as e:
+                        row.append("!" + e.cls_name)
+                out.append(sorted(row, key=repr))
+            except AbsRaise as e:
+                out.append("!" + e.cls_name)
+        return out
+    settings = [("snooze_until(t)", "snooze_until", lambda it: [DT("utc", 50, None)]),
+                ("snooze_until(t) [component without DTSTAMP]", "snooze_until", lambda it: [DT("utc", 50, None)]),
+                ("set_local_timezone(tz)", "set_local_timezone", lambda it: [TZ("zone", "Local/Zone", "plain")]),
+                ("add_alarm(absolute alarm)", "add_alarm", lambda it: [extra_alarm(it)])]
+    for label, meth, mk in settings:
+        res = []
+        try:
+            for first in (True, False):
+                it = Interp(m)
+                alarms = it.call(ClassVal(al_cls), [], {})
+                ev = event(it, stamp="without DTSTAMP" not in label)
+                if first:
+                    it.call(it.getattr(alarms, meth), mk(it), {})
+                    it.call(it.getattr(alarms, "add_component"), [ev], {})
+                else:
+                    it.call(it.getattr(alarms, "add_component"), [ev], {})
+                    it.call(it.getattr(alarms, meth), mk(it), {})
+                res.append(observe(it, alarms))
+        except AbsRaise as e:
+            ctx.fail("C15/HISTORY", f"{label} before add_component", f"raises {e.cls_name}", al_cls.loc())
+            continue
+        except Unsupported as e:
+            raise AnalysisError(f"Alarms order check leaves the abstract interface ({label}): {e}")
+        ctx.check(res[0] == res[1], "C15/HISTORY", f"{label} before or after add_component",
+                  f"{label} followed by add_component(event) gives times/active {res[0]}; "
+                  f"add_component(event) followed by {label} gives {res[1]}: add_component discards "
+                  f"a setting it does not define", al_cls.loc(), detail="same either way")
 
 
 def _wiring(ctx, m, al_cls):
